@@ -115,7 +115,10 @@ def extra_quick():
                                               U('gaussian_nc')],
             [U('gaussian', 1, 2), U('pooled')],
             [U('lognormal_nc', 1, 2), U('gaussian')],
-            [U('gaussian', 2, 2)], [U('pooled', 1, 2), U('truncgauss')]]
+            [U('gaussian', 2, 2)], [U('pooled', 1, 2), U('truncgauss')],
+            # a multi-dimensional regular sub-model in front of further ones
+            [U('gaussian', 2), U('lognormal')],
+            [U('lognormal_nc', 2), U('pooled'), U('gaussian')]]
 
 
 def jobs(tier):
